@@ -53,6 +53,7 @@ type c20Case struct {
 	Op  string `json:"op"`
 	Idx int    `json:"reply_index"` // which reply of the measured operation is malformed (arrival order of its requests); -1 none
 	Mut c20Mut `json:"mut"`
+	Opt string `json:"opt,omitempty"` // option variant (cli_ops.go: which MaxPacket constructor, UseFstat, UseConcurrentReads/Writes, MaxConcurrentRequestsPerFile); "" = MaxPacketUnchecked + the operation's own options
 }
 
 type c20Fail struct {
@@ -206,7 +207,12 @@ func c20Run(cs c20Case) (res c20Res) {
 	if op.Fake != nil {
 		op.Fake(fake)
 	}
-	client, peer, err := peers.NewClient(cliVersion(), cliClientOpts(op)...)
+	copts, oerr := cliClientOptsVar(op, cs.Opt)
+	if oerr != nil {
+		fail("tie/unknown-option-variant", oerr.Error(), nil)
+		return
+	}
+	client, peer, err := peers.NewClient(cliVersion(), copts...)
 	if err != nil {
 		fail("tie/new-client", err.Error(), nil)
 		return
@@ -403,15 +409,46 @@ func c20Key(d *cliDeath, op string) string {
 	return "panic/" + site
 }
 
-func c20Generate(c *lib.Ctx, dry map[string]c20Res) []c20Case {
-	thorough := c.Tier == "thorough"
-	var out []c20Case
-	nrand := 4
-	if thorough {
-		nrand = 150
+// c20Pair is an (operation, option variant) pair and how densely its replies are mutated:
+// 3 thorough-full, 2 quick-full, 0 light.
+type c20Pair struct {
+	op      cliOp
+	variant string
+	level   int
+}
+
+func c20Pairs(thorough bool) []c20Pair {
+	universal := map[string]bool{}
+	for _, v := range cliUniversalVars {
+		universal[v] = true
 	}
+	var out []c20Pair
 	for _, op := range cliOps() {
-		d := dry[op.Name]
+		for _, v := range cliOpVariants(op) {
+			lvl := 2
+			if universal[v] {
+				lvl = 0
+			}
+			if thorough {
+				lvl = map[int]int{2: 3, 0: 2}[lvl]
+			}
+			out = append(out, c20Pair{op, v, lvl})
+		}
+	}
+	return out
+}
+
+func c20Generate(c *lib.Ctx, pairs []c20Pair, dry map[string]c20Res) []c20Case {
+	var out []c20Case
+	for pi, p := range pairs {
+		op := p.op
+		d, ok := dry[cliOpKey(op.Name, p.variant)]
+		if !ok {
+			continue
+		}
+		thorough := p.level == 3
+		light := p.level == 0
+		nrand := map[int]int{3: 150, 2: 4, 0: 1}[p.level]
 		// the speculative tail of a concurrent WriteTo is schedule dependent: keep the deterministic prefix + 2
 		nrep := len(d.Replies)
 		eofs := 0
@@ -427,8 +464,16 @@ func c20Generate(c *lib.Ctx, dry map[string]c20Res) []c20Case {
 		}
 		for j := 0; j < nrep; j++ {
 			valid := lib.UnHex(d.Replies[j])
-			add := func(m c20Mut) { out = append(out, c20Case{Op: op.Name, Idx: j, Mut: m}) }
-			for _, base := range append([]string{"valid"}, c20Bases...) {
+			add := func(m c20Mut) { out = append(out, c20Case{Op: op.Name, Opt: p.variant, Idx: j, Mut: m}) }
+			bases := append([]string{"valid"}, c20Bases...)
+			if light {
+				// the valid reply and three of the substituted kinds, rotating
+				bases = []string{"valid"}
+				for k := 0; k < 3; k++ {
+					bases = append(bases, c20Bases[(pi+j+4*k)%len(c20Bases)])
+				}
+			}
+			for _, base := range bases {
 				fr := valid
 				if base != "valid" {
 					fr = c20Base(base, 1)
@@ -442,11 +487,20 @@ func c20Generate(c *lib.Ctx, dry map[string]c20Res) []c20Case {
 					add(c20Mut{Base: base, Kind: "none"})
 				}
 				plen := len(fr) - 5
-				full := base == "valid" || thorough
+				full := (base == "valid" && !light) || thorough
 				for n := 0; n < plen; n++ {
-					if full || n <= 8 || n == plen-1 || n == plen/2 {
-						add(c20Mut{Base: base, Kind: "cut", N: n})
+					switch {
+					case full:
+					case light:
+						if !(n == 0 || n == 4 || n == plen-1 || n == plen/2 || (base == "valid" && n%3 == (pi+j)%3)) {
+							continue
+						}
+					default:
+						if !(n <= 8 || n == plen-1 || n == plen/2) {
+							continue
+						}
 					}
+					add(c20Mut{Base: base, Kind: "cut", N: n})
 				}
 				for _, f := range cliReplyFields(fr) {
 					vals := []uint32{0, f.Val - 1, f.Val + 1, 1<<31 - 1, 1<<32 - 1, 1 << 29, 1<<29 + 1, 1 << 31} // incl. counts whose product with an element size wraps around 2^32
@@ -474,7 +528,10 @@ func c20Generate(c *lib.Ctx, dry map[string]c20Res) []c20Case {
 				typs := []byte{valid[4], wire.Status, wire.Handle, wire.Data, wire.Name, wire.Attrs, wire.ExtendedReply, byte(c.Rand.Intn(256))}
 				add(c20Mut{Kind: "rand", Seed: c.Rand.Int63(), Len: c.Rand.Intn(48), Typ: typs[c.Rand.Intn(len(typs))], BadID: k%8 == 7})
 			}
-			for _, how := range []string{"len0", "toolong", "inflated-eof"} {
+			for k, how := range []string{"len0", "toolong", "inflated-eof"} {
+				if light && k != (pi+j)%3 {
+					continue
+				}
 				add(c20Mut{Base: "valid", Kind: "badframe", How: how})
 			}
 		}
@@ -484,7 +541,7 @@ func c20Generate(c *lib.Ctx, dry map[string]c20Res) []c20Case {
 
 func checkC20(c *lib.Ctx) {
 	r := c.R
-	r.Rule = "for each of the client operations of cmd/vh/cli_ops.go (Client and File API, single- and multi-chunk, sequential and concurrent paths; 40-byte file, MaxPacket 16) and each reply of the operation: the valid reply (from a fake server) cut to every payload length 0…n-1 with a consistent frame length; every length/count/attribute-flags word set to 0, n-1, n+1, 2^31-1, 2^32-1 (flags: |EXTENDED, all ones); every other reply kind (3 STATUS shapes, HANDLE, DATA, NAME x1, NAME x2, ATTRS, EXTENDED_REPLY, VERSION, type 99) with the right id, themselves cut (thorough: every length; quick: 0…8, middle, n-1) and field-edited; PRNG payloads with PRNG type (some with a PRNG id); ill-framed packets (length 0, length > 256 KiB, inflated length then EOF). Each case is one fresh Client in a child process (one case at a time; a dead child is re-run alone). Non-trivial = every case whose reply differs from the valid one; distinct by (operation, reply index, mutation)."
+	r.Rule = "for each of the client operations of cmd/vh/cli_ops.go (Client and File API incl. Walk, Glob, ReadDirContext over several batches, RemoveAll and MkdirAll over a tree, ReadFrom with every reader interface, ReadFromWithConcurrency; single- and multi-chunk, sequential and concurrent paths; 40-byte file, MaxPacket 16), each option variant of the operation (every operation: MaxPacketUnchecked, MaxPacketChecked, the MaxPacket alias, UseFstat(true) — the last three at reduced density, thorough: quick density; transfers also: UseFstat on/off, UseConcurrentReads false/true, UseConcurrentWrites true/false, MaxConcurrentRequestsPerFile 1/2 and combinations, at full density) and each reply of the operation: the valid reply (from a fake server) cut to every payload length 0…n-1 with a consistent frame length; every length/count/attribute-flags word set to 0, n-1, n+1, 2^31-1, 2^32-1 (flags: |EXTENDED, all ones); every other reply kind (3 STATUS shapes, HANDLE, DATA, NAME x1, NAME x2, ATTRS, EXTENDED_REPLY, VERSION, type 99) with the right id, themselves cut (thorough: every length; quick: 0…8, middle, n-1) and field-edited; PRNG payloads with PRNG type (some with a PRNG id); ill-framed packets (length 0, length > 256 KiB, inflated length then EOF). Each case is one fresh Client in a child process (one case at a time; a dead child is re-run alone). Non-trivial = every case whose reply differs from the valid one; distinct by (operation, option variant, reply index, mutation)."
 	workers := runtime.NumCPU()
 	if workers > 16 {
 		workers = 16
@@ -498,11 +555,11 @@ func checkC20(c *lib.Ctx) {
 		}
 		cases = []c20Case{one}
 	} else {
-		// dry runs: the valid replies of every operation
+		// dry runs: the valid replies of every operation under every option variant
+		pairs := c20Pairs(c.Tier == "thorough")
 		var dryCases []json.RawMessage
-		ops := cliOps()
-		for _, op := range ops {
-			b, _ := json.Marshal(c20Case{Op: op.Name, Idx: -1, Mut: c20Mut{Base: "valid", Kind: "none"}})
+		for _, p := range pairs {
+			b, _ := json.Marshal(c20Case{Op: p.op.Name, Opt: p.variant, Idx: -1, Mut: c20Mut{Base: "valid", Kind: "none"}})
 			dryCases = append(dryCases, b)
 		}
 		results, deaths, err := cliRunPool("c20", nil, dryCases, workers, 90*time.Second, nil)
@@ -511,24 +568,32 @@ func checkC20(c *lib.Ctx) {
 			return
 		}
 		dry := map[string]c20Res{}
-		for i, op := range ops {
+		for i, p := range pairs {
+			op := p.op
+			okey := cliOpKey(op.Name, p.variant)
+			none := c20Case{Op: op.Name, Opt: p.variant, Idx: -1}
 			var res c20Res
 			if d := deaths[i]; d != nil || results[i] == nil {
-				r.Fail(lib.Failure{Kind: "oracle", Key: "valid-replies/" + op.Name, What: "the child died on VALID replies", Input: c20Case{Op: op.Name, Idx: -1}, Actual: deaths[i]})
+				r.Fail(lib.Failure{Kind: "oracle", Key: "valid-replies/" + okey, What: "the child died on VALID replies", Input: none, Actual: deaths[i]})
 				continue
 			}
 			json.Unmarshal(results[i], &res)
-			r.Case("dry/"+op.Name, false)
+			r.Case("dry/"+okey, false)
 			r.Hist("valid-run/" + res.Outcome + "/" + res.After)
 			if (res.Outcome != "value" && !op.ErrOK) || res.After != "usable" || len(res.Fails) > 0 {
-				r.Fail(lib.Failure{Kind: "tie", Key: "valid-replies/" + op.Name, What: "operation does not succeed against the fake server's valid replies; the harness's fake server or operation table is wrong",
-					Input: c20Case{Op: op.Name, Idx: -1}, Actual: res})
+				r.Fail(lib.Failure{Kind: "tie", Key: "valid-replies/" + okey, What: "operation does not succeed against the fake server's valid replies; the harness's fake server or operation table is wrong",
+					Input: none, Actual: res})
 				continue
 			}
-			dry[op.Name] = res
-			c20DryCache.Store(op.Name, res.Replies)
+			if dd, ok := dry[op.Name]; ok && p.variant != "" {
+				if fmt.Sprint(res.ReqTyps) != fmt.Sprint(dd.ReqTyps) && !strings.HasPrefix(op.Name, "File.WriteTo-concurrent") {
+					r.Hist("variant-changes-requests/" + okey)
+				}
+			}
+			dry[okey] = res
+			c20DryCache.Store(okey, res.Replies)
 		}
-		cases = c20Generate(c, dry)
+		cases = c20Generate(c, pairs, dry)
 	}
 	selftest := -1
 	if c.Replay == "" {
@@ -561,9 +626,15 @@ func checkC20(c *lib.Ctx) {
 			}
 			continue
 		}
-		canon := fmt.Sprintf("%s#%d %s", cs.Op, cs.Idx, cs.Mut)
+		canon := fmt.Sprintf("%s#%d %s", cliOpKey(cs.Op, cs.Opt), cs.Idx, cs.Mut)
 		r.Case(canon, true)
 		r.Hist("op/" + cs.Op)
+		r.Hist("option-variant/" + map[bool]string{true: "default", false: cs.Opt}[cs.Opt == ""])
+		for _, a := range strings.Split(cs.Opt, "+") {
+			if a != "" {
+				r.Hist("option/" + a)
+			}
+		}
 		r.Hist("mutation/" + cs.Mut.Kind + "/" + map[bool]string{true: "valid-reply", false: "substituted-type"}[cs.Mut.Base == "valid" || cs.Mut.Base == ""])
 		if d := deaths[i]; d != nil {
 			key := c20Key(d, cs.Op)
@@ -697,15 +768,15 @@ var c20DryCache sync.Map
 // c20ValidFor returns the valid reply #Idx of an operation by running it in-process against the fake
 // server (valid replies only, so this cannot crash).
 func c20ValidFor(cs c20Case) []byte {
-	if v, ok := c20DryCache.Load(cs.Op); ok {
+	if v, ok := c20DryCache.Load(cliOpKey(cs.Op, cs.Opt)); ok {
 		reps := v.([]string)
 		if cs.Idx < len(reps) {
 			return lib.UnHex(reps[cs.Idx])
 		}
 		return nil
 	}
-	res := c20Run(c20Case{Op: cs.Op, Idx: -1, Mut: c20Mut{Base: "valid", Kind: "none"}})
-	c20DryCache.Store(cs.Op, res.Replies)
+	res := c20Run(c20Case{Op: cs.Op, Opt: cs.Opt, Idx: -1, Mut: c20Mut{Base: "valid", Kind: "none"}})
+	c20DryCache.Store(cliOpKey(cs.Op, cs.Opt), res.Replies)
 	if cs.Idx < len(res.Replies) {
 		return lib.UnHex(res.Replies[cs.Idx])
 	}
